@@ -32,6 +32,11 @@ class Unsupported(Exception):
     pass
 
 
+def exmsg(ex):
+    lines = str(ex).splitlines()
+    return type(ex).__name__ + ": " + (lines[0][:300] if lines else "")
+
+
 # ----------------------------------------------------------------------------------------------- dumping (JSON trees)
 def fac_tree(f):
     n = type(f).__name__
@@ -281,7 +286,7 @@ def run_file(datadir, fname, cfg):
                 ann = tstr(d[br.name])
                 c = d.compute()[br.name]
             except Exception as ex:  # noqa: BLE001
-                mm("dask-exception", k, [steps], {"type_equal": False, "values_equal": False, "got_type": type(ex).__name__ + ": " + str(ex).splitlines()[0][:300]})
+                mm("dask-exception", k, [steps], {"type_equal": False, "values_equal": False, "got_type": exmsg(ex)})
                 continue
             lazy_cmp("dask", k, br, c, ann, e, [steps])
             if not fields:
@@ -294,7 +299,7 @@ def run_file(datadir, fname, cfg):
                     annp = tstr(dp)
                     cp = dp.compute()
                 except Exception as ex:  # noqa: BLE001
-                    dd = {"type_equal": False, "values_equal": False, "got_type": type(ex).__name__ + ": " + str(ex).splitlines()[0][:300]}
+                    dd = {"type_equal": False, "values_equal": False, "got_type": exmsg(ex)}
                     if "TRawData" in c.fields and fld in c["TRawData"].fields:
                         dd["digi_flatten_fixes_it"] = compare(d[br.name]["TRawData"][fld].compute(), e[fld]) is None
                     mm("dask-project-exception", k, [steps, fld], dd)
@@ -315,11 +320,11 @@ def run_file(datadir, fname, cfg):
                     ann = tstr(dg[br.name])
                     c = dg[br.name].compute()
                 except Exception as ex:  # noqa: BLE001
-                    mm("dask-group-exception", k, [], {"type_equal": False, "values_equal": False, "got_type": type(ex).__name__ + ": " + str(ex).splitlines()[0][:300]})
+                    mm("dask-group-exception", k, [], {"type_equal": False, "values_equal": False, "got_type": exmsg(ex)})
                     continue
                 lazy_cmp("dask-group", k, br, c, ann, eager[k], [])
         except Exception as ex:  # noqa: BLE001
-            mm("dask-group-exception", "*", [], {"type_equal": False, "values_equal": False, "got_type": type(ex).__name__ + ": " + str(ex).splitlines()[0][:300]})
+            mm("dask-group-exception", "*", [], {"type_equal": False, "values_equal": False, "got_type": exmsg(ex)})
     for m in symm:
         partner = next((k for k in plain if k != m), None)
         if partner is None:
@@ -337,7 +342,7 @@ def run_file(datadir, fname, cfg):
                 ann = tstr(dg[br.name])
                 c = dg[br.name].compute()
             except Exception as ex:  # noqa: BLE001
-                msg = type(ex).__name__ + ": " + str(ex).splitlines()[0][:300]
+                msg = exmsg(ex)
                 mm("dask-pair-projected-away" if target == partner else "dask-pair-exception", m, [partner, target],
                    {"type_equal": False, "values_equal": False, "got_type": msg,
                     "placeholder_inner_shape": isinstance(ex, TypeError) and "unknown lengths" in str(ex)})
